@@ -18,14 +18,19 @@ ResultFails(r, ev) ==
   IF ev.raised THEN {"raised"}
   ELSE CASE ev.kind = "c07" ->
          (IF Len(ev.planes_ppb) = Len(ev.planes) * ev.ncfg /\ AllLe(ev.planes_ppb, Tol) THEN {} ELSE {"exit_plane_equals_truncated_run"})
-    \cup (IF ev.planes[Len(ev.planes)] = Len(ev.slice_fp) - 1 THEN {} ELSE {"last_exit_plane_is_full_run"})
+    \cup (IF ev.explicit \/ ev.planes[Len(ev.planes)] = Len(ev.slice_fp) - 1 THEN {} ELSE {"last_exit_plane_is_full_run"})
     \cup (IF Len(ev.axis_fp) = Len(ev.planes) /\ \A p \in 1..Len(ev.planes) :
                ev.axis_fp[p] - SumTo(ev.slice_fp, ev.planes[p] + 1) \in -(Tol6 * 8)..(Tol6 * 8) THEN {} ELSE {"thickness_axis_is_cumulative"})
+    \cup (IF ev.lazy_ppb <= Tol THEN {} ELSE {"lazy_series_equals_eager_series"})
+    \* the same pre-built wave functions sent through the potential twice, and re-read afterwards
+    \cup (IF ev.reuse_ppb <= Tol THEN {} ELSE {"incident_waves_reusable_after_the_run"})
     [] ev.kind = "c02" ->
          (IF AllLe(ev.members_ppb, Tol) THEN {} ELSE {"member_equals_independent_run"})
     \cup (IF ev.mean_ppb <= Tol THEN {} ELSE {"ensemble_mean_is_mean_of_members"})
     \cup (IF ev.positions_same THEN {} ELSE {"configurations_depend_on_chunking_or_mode"})
     \cup (IF ev.shape_ok THEN {} ELSE {"shape"})
+    \cup (IF ev.lazy_ppb <= Tol THEN {} ELSE {"lazy_run_equals_eager_run"})
+    \cup (IF AllLe(ev.joint_ppb, Tol) THEN {} ELSE {"ensembles_computed_together_keep_their_own_configurations"})
     [] ev.kind = "c04" ->
          \* a double-precision run is held to 1e-7 (observed 1e-15): the second-order correction of the propagator is a 1e-5 effect
          LET tol == IF ev.double THEN 100 ELSE Tol IN
